@@ -1767,6 +1767,19 @@ def c11f(F, R):
         R.bad("markup", f"FunctionMarkupPass runs before the first `AvailableValuePass -> EcallTerminationPass` round ({' -> '.join(names)}): it walks the fall-through edge after a known exit ecall, so a function that contains `li a7, 93; ecall` swallows the code (and the next function) behind it", f["sp"])
 
 
+def _visited_sets(f):
+    """locals that play the role of the grow-only `visited` set of a fixed-point pass: something is `.insert`ed into them inside
+    a `for` over the CFG and they are consulted with `.contains`"""
+    body = f["hir"]["value"]
+    ins = {ekey(m["recv"]).lstrip("&*") for fl in for_loops(body) for m in walk(fl["body"], pats=False)
+           if m.get("k") == "MethodCall" and m["name"] == "insert" and peel(m["recv"]).get("k") == "Path" and peel(m["recv"]).get("res_kind") == "Local"}
+    con = {ekey(m["recv"]).lstrip("&*") for m in walk(body, pats=False) if m.get("k") == "MethodCall" and m["name"] == "contains"}
+    for cl in walk(body, pats=False):
+        if cl.get("k") == "Closure":
+            con |= {ekey(m["recv"]).lstrip("&*") for m in walk(cl.get("body") or {}, pats=False) if m.get("k") == "MethodCall" and m["name"] == "contains"}
+    return ins & con
+
+
 @rule("C12", "C12.g.every-sweep-evaluates-every-node", floor=2)
 def c12g(F, R):
     """inside the `while changed` sweep of each dataflow pass the per-node body always reaches the statements that publish the node's out-facts: no `continue`/`break` skips a node whose ins did not change (a transfer function that also reads the node's own previous outs would stop one evaluation short and a later run would still change facts)"""
@@ -1819,7 +1832,7 @@ def c12g(F, R):
                         blk = x
                     if x.get("k") == "If":
                         c = list(walk(x["cond"], pats=False)) + [y for cl in walk(x["cond"], pats=False) if cl.get("k") == "Closure" for y in walk(cl.get("body") or {}, pats=False)]
-                        tests_visited = any(m.get("k") == "MethodCall" and m["name"] == "contains" and "visited" in ekey(m["recv"]) for m in c) and \
+                        tests_visited = any(m.get("k") == "MethodCall" and m["name"] == "contains" and ekey(m["recv"]).lstrip("&*") in _visited_sets(f) for m in c) and \
                             any(m.get("k") == "MethodCall" and m["name"] == "prevs" for m in c) and any(m.get("k") == "MethodCall" and m["name"] == "any" for m in c)
                         negated = any(u.get("k") == "Unary" and u["op"] == "Not" and any(m.get("k") == "MethodCall" and m["name"] == "any" for m in walk(u, pats=False)) for u in c)
                         resets = blk is not None and {callee_of(m) for m in walk(blk, pats=False) if m.get("k") in ("MethodCall", "Call") and callee_of(m) in setters} >= {p_ for p_, fld in setters.items() if fld in ("reg_values_out", "memory_values_out", "reg_values_in", "memory_values_in")} if name == "AvailableValuePass" else True
@@ -2031,7 +2044,7 @@ def c06u(F, R):
                 e = peel(st.get("e") or {})
                 if e.get("k") == "If" and any(y.get("k") == "Continue" for y in walk(e["then"], pats=False)):
                     c = list(walk(e["cond"], pats=False)) + [y for cl in walk(e["cond"], pats=False) if cl.get("k") == "Closure" for y in walk(cl.get("body") or {}, pats=False)]
-                    if any(m.get("k") == "MethodCall" and m["name"] == "contains" and "visited" in ekey(m["recv"]) for m in c) and any(m.get("k") == "MethodCall" and m["name"] == "prevs" for m in c) \
+                    if any(m.get("k") == "MethodCall" and m["name"] == "contains" and ekey(m["recv"]).lstrip("&*") in _visited_sets(f) for m in c) and any(m.get("k") == "MethodCall" and m["name"] == "prevs" for m in c) \
                             and any(u.get("k") == "Unary" and u["op"] == "Not" for u in c):
                         first_site = min(i for i, s2 in enumerate(stmts) if any(y is sites[0] for y in walk(s2, pats=False))) if any(any(y is sites[0] for y in walk(s2, pats=False)) for s2 in stmts) else 10 ** 6
                         if stmts.index(st) < first_site:
